@@ -27,13 +27,15 @@ WHERE = {}
 
 @st.composite
 def _cell(draw):
-    kind = draw(st.sampled_from(["ortho", "special", "tric", "tric", "neardeg", "needle"]))
+    kind = draw(st.sampled_from(["ortho", "special", "special", "tric", "tric", "neardeg", "needle"]))
     L = [math.exp(draw(st.floats(math.log(0.1), math.log(50.0)))) for _ in range(3)]
     if kind == "ortho":
         A = [90.0, 90.0, 90.0]
     elif kind == "special":
         A = draw(st.sampled_from([[60.0, 90.0, 90.0], [90.0, 90.0, 120.0], [90.0, 90.0, 60.0], [gen.TO, gen.TO, gen.TO],
-                                  [60.0, 60.0, 90.0], [60.0, 60.0, 60.0], [90.0, 120.0, 90.0], [70.0, 80.0, 100.0]]))
+                                  [60.0, 60.0, 90.0], [60.0, 60.0, 60.0], [90.0, 120.0, 90.0], [70.0, 80.0, 100.0],
+                                  # the three monoclinic settings (one oblique angle: alpha, beta or gamma)
+                                  [75.0, 90.0, 90.0], [110.0, 90.0, 90.0], [90.0, 75.0, 90.0], [90.0, 90.0, 105.0]]))
         if A[0] == gen.TO or A == [60.0, 60.0, 60.0]:
             L = [L[0]] * 3
     elif kind == "tric":
@@ -58,7 +60,7 @@ def strategy(draw, tier="quick"):
     nops = draw(st.integers(1, 10))
     for _ in range(nops):
         name = draw(st.sampled_from(["set_vec", "set_vec", "set_vec", "set_la", "set_la", "set_a_only", "set_l_only", "none_vec", "none_la", "none_l", "none_a",
-                                     "slice", "slice", "join", "stack", "atom_slice", "saveload"]))
+                                     "slice", "slice", "join", "stack", "atom_slice", "saveload", "saveload", "saveload"]))
         if name == "set_vec":
             ops.append([name, draw(_cell()), draw(st.one_of(st.none(), st.integers(0, 2 ** 31)))])
         elif name in ("set_la", "set_a_only", "set_l_only"):
